@@ -215,6 +215,20 @@ def _check_operated(ctx, m, sh, want, op, tol, mech_prefix="transform"):
     sh.V = V.copy()
 
 
+def _origin(rng, m, sh):
+    """Returns (argument passed to the library, value used by the shadow, tag).  The fixed point may be the very vector object the mesh stores
+    for one of its vertices: the requested map is then 'about that vertex', evaluated on its position before the call."""
+    import mouette as M
+    r = rng.random()
+    if r < 0.4 or len(sh.V) == 0:
+        return None, np.zeros(3), "default"
+    if r < 0.75:
+        o = np.array([rng.uniform(-1, 1) for _ in range(3)])
+        return M.Vec(o.copy()), o, "fresh"
+    k = rng.randrange(len(sh.V))
+    return m.vertices[k], sh.V[k].copy(), "own_vertex_object"
+
+
 # ----------------------------------------------------------------------------- steps
 def run_case(desc, ctx):
     import mouette as M
@@ -313,7 +327,13 @@ def run_case(desc, ctx):
                 _compare_pool(ctx, pool, shadows, None, "merge", None)
             elif kind in ("translate", "inverse_translate"):
                 t = np.array([rng.uniform(-3, 3) for _ in range(3)])
-                targ = rng.choice([lambda x: M.Vec(x), lambda x: np.array(x), lambda x: M.Vec(x)])(t.copy())
+                if rng.random() < 0.15 and len(sh.V):
+                    k0 = rng.randrange(len(sh.V))
+                    t = sh.V[k0].copy()
+                    targ = m.vertices[k0]  # the translation vector is the mesh's own stored vertex object
+                    ctx.cls("translate_by_own_vertex_object")
+                else:
+                    targ = rng.choice([lambda x: M.Vec(x), lambda x: np.array(x), lambda x: M.Vec(x)])(t.copy())
                 ctx.call("translate", T.translate, m, targ, monitor="transform")
                 _check_operated(ctx, m, sh, sh.V + t, "translate", 1e-15)
                 _compare_pool(ctx, pool, shadows, "translate", "translate", j)
@@ -326,7 +346,8 @@ def run_case(desc, ctx):
                     _compare_pool(ctx, pool, shadows, "translate", "translate", j)
             elif kind in ("rotate", "inverse_rotate"):
                 R = Rotation.from_rotvec(np.array([rng.uniform(-1, 1) for _ in range(3)]) * rng.uniform(0.1, 3))
-                orig = None if rng.random() < 0.5 else np.array([rng.uniform(-1, 1) for _ in range(3)])
+                oarg, o, otag = _origin(rng, m, sh)
+                ctx.cls("origin:" + otag)
                 form = rng.choice(["obj", "matrix", "euler"])
                 if form == "obj":
                     arg = R
@@ -334,38 +355,37 @@ def run_case(desc, ctx):
                     arg = R.as_matrix()
                 else:
                     arg = [float(x) for x in R.as_euler("xyz")]
-                o = np.zeros(3) if orig is None else orig
                 want = o + (sh.V - o) @ R.as_matrix().T
                 before = sh.V.copy()
-                ctx.call("rotate", T.rotate, m, arg, None if orig is None else M.Vec(orig.copy()), monitor="transform")
-                _check_operated(ctx, m, sh, want, "rotate", 1e-11)
+                ctx.call("rotate", T.rotate, m, arg, oarg, monitor="transform")
+                _check_operated(ctx, m, sh, want, "rotate" + ("_about_own_vertex" if otag == "own_vertex_object" else ""), 1e-11)
                 _compare_pool(ctx, pool, shadows, "rotate", "rotate", j)
                 if kind == "inverse_rotate":
-                    ctx.call("rotate", T.rotate, m, R.inv(), None if orig is None else M.Vec(orig.copy()), monitor="transform")
+                    ctx.call("rotate", T.rotate, m, R.inv(), None if oarg is None else M.Vec(o.copy()), monitor="transform")
                     _check_operated(ctx, m, sh, o + (sh.V - o) @ R.inv().as_matrix().T, "rotate", 1e-11)
                     ctx.check(np.all(np.abs(sh.V - before) <= 1e-11 * max(1.0, np.abs(before).max())), "inverse", "rotate", "inverse_does_not_restore",
                               "rotate(R) then rotate(R^-1) does not restore the coordinates", producer=sh.producer)
                     _compare_pool(ctx, pool, shadows, "rotate", "rotate", j)
             elif kind in ("scale", "inverse_scale"):
                 s = rng.choice([0.5, 2.0, 3.7, 0.1, -1.5])
-                orig = None if rng.random() < 0.5 else np.array([rng.uniform(-1, 1) for _ in range(3)])
-                o = np.zeros(3) if orig is None else orig
+                oarg, o, otag = _origin(rng, m, sh)
+                ctx.cls("origin:" + otag)
                 before = sh.V.copy()
-                ctx.call("scale", T.scale, m, s, None if orig is None else M.Vec(orig.copy()), monitor="transform")
-                _check_operated(ctx, m, sh, o + s * (sh.V - o), "scale", 1e-13)
+                ctx.call("scale", T.scale, m, s, oarg, monitor="transform")
+                _check_operated(ctx, m, sh, o + s * (sh.V - o), "scale" + ("_about_own_vertex" if otag == "own_vertex_object" else ""), 1e-13)
                 _compare_pool(ctx, pool, shadows, "scale", "scale", j)
                 if kind == "inverse_scale":
-                    ctx.call("scale", T.scale, m, 1 / s, None if orig is None else M.Vec(orig.copy()), monitor="transform")
+                    ctx.call("scale", T.scale, m, 1 / s, None if oarg is None else M.Vec(o.copy()), monitor="transform")
                     _check_operated(ctx, m, sh, o + (1 / s) * (sh.V - o), "scale", 1e-13)
                     ctx.check(np.all(np.abs(sh.V - before) <= 1e-12 * max(1.0, np.abs(before).max())), "inverse", "scale", "inverse_does_not_restore",
                               "scale(s) then scale(1/s) does not restore the coordinates", producer=sh.producer)
                     _compare_pool(ctx, pool, shadows, "scale", "scale", j)
             elif kind == "scale_xyz":
                 f = [rng.choice([0.5, 2.0, 1.0, 3.0]) for _ in range(3)]
-                orig = None if rng.random() < 0.5 else np.array([rng.uniform(-1, 1) for _ in range(3)])
-                o = np.zeros(3) if orig is None else orig
-                ctx.call("scale_xyz", T.scale_xyz, m, f[0], f[1], f[2], None if orig is None else M.Vec(orig.copy()), monitor="transform")
-                op = "scale_xyz_default_origin" if orig is None else "scale_xyz"
+                oarg, o, otag = _origin(rng, m, sh)
+                ctx.cls("origin:" + otag)
+                ctx.call("scale_xyz", T.scale_xyz, m, f[0], f[1], f[2], oarg, monitor="transform")
+                op = "scale_xyz_default_origin" if oarg is None else ("scale_xyz_about_own_vertex" if otag == "own_vertex_object" else "scale_xyz")
                 _check_operated(ctx, m, sh, o + np.array(f) * (sh.V - o), op, 1e-13)
                 _compare_pool(ctx, pool, shadows, "scale_xyz", "scale_xyz", j)
             elif kind in ("normalize", "fit"):
